@@ -65,6 +65,30 @@ def run(ctx):
     except Exception as e:
         out = "exception:" + type(e).__name__
     traces.append({"id": "empty-synth", "events": [{"op": "emptysynth", "outcome": out, "written": sum(len(b) for b in buf)}]})
+    # ... also where the empty synth sits inside another module (a Sampler's effect), directly, as a clone and inside a project
+    for how in ("synth", "clone", "project", "nested"):
+        smp = api.m.Sampler()
+        smp.effect = api.Synth()
+        if how == "nested":
+            outer = api.m.Sampler()
+            outer.effect = api.Synth(smp)
+            smp = outer
+        try:
+            if how == "clone":
+                smp.clone()
+                data = b"x"
+            elif how == "project":
+                pj = api.Project()
+                pj.attach_module(smp)
+                data = pj.read()
+            else:
+                data = api.Synth(smp).read()
+            out, n = "ok", len(data)
+        except api.Synth.__init__.__globals__["EmptySynthError"]:
+            out, n = "EmptySynthError", 0
+        except Exception as e:
+            out, n = "exception:" + type(e).__name__, 0
+        traces.append({"id": "empty-effect-" + how, "events": [{"op": "emptysynth", "outcome": out, "written": n}]})
     cans = []
     for k, tr in enumerate([traces[0], traces[7], traces[20]]):
         c = {"id": "canary%d" % k, "events": [fmt.corrupt_first_int(tr["events"][0])]}
